@@ -31,8 +31,10 @@ MANIFEST = {
 }
 PROPERTY_FILES = ['Properties/C09.v']
 REFUTED_FILES = ['Refuted/C09.v']
-MODEL_FILES = ['SF/GrowOnly.v', 'SF/GrowOnlyHier.v', 'SF/GrowOnlyShare.v', 'Gen/Gen_c09.v', 'SF/GrowOnlyWorld.v', 'SF/GrowOnlyVal.v']
-IMPORTS = 'Require Import SF.Prelude SF.Dtype SF.Value SF.GrowOnly SF.GrowOnlyHier SF.GrowOnlyShare Gen.Gen_c09 SF.GrowOnlyWorld SF.GrowOnlyVal.'
+MODEL_FILES = ['SF/GrowOnly.v', 'SF/GrowOnlyHier.v', 'SF/GrowOnlyShare.v', 'SF/GrowOnlySpec.v', 'Gen/Gen_c09.v', 'SF/GrowOnlyWorld.v', 'SF/GrowOnlyVal.v']
+IMPORTS = 'Require Import SF.Prelude SF.Dtype SF.Value SF.GrowOnly SF.GrowOnlyHier SF.GrowOnlyShare SF.GrowOnlySpec Gen.Gen_c09 SF.GrowOnlyWorld SF.GrowOnlyVal.'
+# when the sharing tables cannot be regenerated (generate() fails closed) the specification must still evaluate
+IMPORTS_SPEC_ONLY = 'Require Import SF.Prelude SF.Dtype SF.Value SF.GrowOnly SF.GrowOnlyHier SF.GrowOnlyShare SF.GrowOnlySpec.'
 RULE = ('a case is one HISTORY on one real container (or world of containers): construction, then growth calls (and reads / conversions), with '
         'the outcome class of every call and a snapshot of every live container after (almost) every step; strata: corpus (minimal replays of the '
         'known findings), exhaustive (all histories up to length N over a small alphabet of calls that contains every argument class: valid, '
@@ -462,16 +464,24 @@ def snap_frame(g):
             lit.vlist(lit.labels(g.dtypes.index)) == lit.vlist(labels)
     except Exception:  # noqa
         pub = False
-    return labels, npos, cols, shape, layout, readable, dts, rowdt, pub
+    try:
+        rows = [list(r) for r in g.values.tolist()] if shape[1] else [[] for _ in range(shape[0])]
+        by_iter = [a.tolist() for a in g.iter_array(axis=1)] if shape[1] else rows
+        by_t = [list(r) for r in zip(*g.transpose().values.tolist())] if shape[1] and shape[0] else rows
+        rows_consistent = repr(by_iter) == repr(rows) and repr(by_t) == repr(rows)
+    except Exception:  # noqa
+        rows, rows_consistent = [], False
+    return labels, npos, cols, shape, layout, readable, dts, rowdt, pub, rows, rows_consistent
 
 
 def _fseen_lit(snap):
-    labels, npos, cols, shape, layout, readable, dts, rowdt, pub = snap
+    labels, npos, cols, shape, layout, readable, dts, rowdt, pub, rows, rows_consistent = snap
     cl = lit.lst([f'({lit.dtype(dt)}, {lit.vlist(vs)})' for dt, vs in cols])
     ll = lit.lst([f'({lit.z(w)}, {lit.b(d)})' for w, d in layout])
     rd = 'None' if rowdt is None else f'(Some {lit.dtype(rowdt)})'
     return (f'(Some (mk_fseen {lit.vlist(labels)} {lit.z(npos)} {cl} ({lit.z(shape[0])}, {lit.z(shape[1])}) '
-            f'{ll} {lit.lst([lit.b(x) for x in readable])} {lit.lst([lit.dtype(d) for d in dts])} {rd} {lit.b(pub)}))')
+            f'{ll} {lit.lst([lit.b(x) for x in readable])} {lit.lst([lit.dtype(d) for d in dts])} {rd} {lit.b(pub)} '
+            f'{lit.lst([lit.vlist(r) for r in rows])} {lit.b(rows_consistent)}))')
 
 
 def _frame_init(init):
@@ -498,7 +508,8 @@ def frame_history(init, ops, look):
                       'seen': None if snap is None else {'columns': _j(snap[0]), 'positions': snap[1], 'shape': list(snap[3]),
                                                          'data': [[str(dt), _j(vs)] for dt, vs in snap[2]],
                                                          'layout': zoo.layout_str(snap[4]), 'readable_by_label': snap[5],
-                                                         'dtypes': [str(d) for d in snap[6]], 'dtypes_property_ok': snap[8]}})
+                                                         'dtypes': [str(d) for d in snap[6]], 'dtypes_property_ok': snap[8],
+                                                         'values_rows': _j(snap[9]), 'rows_consistent': snap[10]}})
         if lit.vlist(lit.labels(g.index)) != rows_before and py_fail is None:
             py_fail = 'the row index of a FrameGO changed under a growth call'
     h = lit.lst(recs)
@@ -607,6 +618,20 @@ def frame_exhaustive(ctx):
     for n in range(1, N + 1):
         for ops in itertools.product(alpha, repeat=n):
             yield init, list(ops), [i != 0 for i in range(n)]
+    # frames whose columns all are strings, growing in width: the row dtype must widen with them
+    init_s = {'rows': ROWS, 'labels': ['a'], 'cols': [(np.dtype('<U1'), ['p', 'q'])], 'layout': [(1, False)]}
+    u5 = np.dtype('<U5')
+    alpha_s = [
+        {'op': 'set', 'key': 'b', 'value': ('arr', u5, ['hello', 'x'])},
+        {'op': 'set', 'key': 'c', 'value': ('iter', ['qq', 'r'])},
+        {'op': 'ext_frame', 'fidx': ['x', 'y'], 'fcols': ['d', 'e'], 'cols': [(u5, ['wide5', 'ab']), (u5, ['z', 'hello'])], 'layout': [(2, True)]},
+        {'op': 'ext_series', 'name': 'f', 'sidx': ['y', 'x'], 'dtype': np.dtype('<U3'), 'vals': ['abc', 'd']},
+        {'op': 'items', 'pairs': [('g', ('scalar', 'long4')), ('h', ('iter', ['s', 't']))]},
+        {'op': 'read'},
+    ]
+    for n in range(1, 4):
+        for ops in itertools.product(alpha_s, repeat=n):
+            yield init_s, list(ops), [True] * n
 
 
 CORPUS_FRAME = [
@@ -625,11 +650,13 @@ VALS = {
     'f': (np.float64, [1.5, -0.25, 2.0, 8.0, NAN, 0.5]),
     'b': (np.bool_, [True, False]),
     'U': (np.dtype('<U2'), ['p', 'qq', 'r', 'st']),
+    'W': (np.dtype('<U5'), ['hello', 'wide5', 'ab', 'z']),
+    'N': (np.dtype('<U1'), ['a', 'b', 'c']),
     'O': (np.dtype(object), [1, 'a', None, 2.5, True]),
 }
 
 
-def _col(rng, nrows, kinds='ifbUO'):
+def _col(rng, nrows, kinds='ifbUOWN'):
     k = rng.choice(kinds)
     dt, pool = VALS[k]
     return (dt, [rng.choice(pool) for _ in range(nrows)])
@@ -699,7 +726,7 @@ def frame_random(ctx, count):
                 dt, vs = _col(rng, n)
                 return ('arr', dt, vs)
             if r < 0.55:
-                k = rng.choice('ifbU')
+                k = rng.choice('ifbUW')
                 return ('iter', [rng.choice([v for v in VALS[k][1] if v == v]) for _ in range(n)], rng.choice(['list', 'tuple']))
             if not valid:
                 dt, vs = _col(rng, n)
@@ -1021,8 +1048,18 @@ def _frame_derivations():
         'FrameGO(s)': lambda s: sf.FrameGO(s),
         'FrameHE(s)': lambda s: sf.FrameHE(s),
         'cls(s)': lambda s: s.__class__(s),
-        'FrameGO(s,columns=s.columns)': lambda s: sf.FrameGO(s.values, index=s.index, columns=s.columns),
-        'Frame(s,columns=s.columns)': lambda s: sf.Frame(s.values, index=s.index, columns=s.columns),
+        'Frame(s,index=s.index)': lambda s: sf.Frame(s, index=s.index),
+        'Frame(s,columns=s.columns)': lambda s: sf.Frame(s, columns=s.columns),
+        'Frame(s,index,columns)': lambda s: sf.Frame(s, index=s.index, columns=s.columns),
+        'FrameHE(s,index=s.index)': lambda s: sf.FrameHE(s, index=s.index),
+        'FrameHE(s,columns=s.columns)': lambda s: sf.FrameHE(s, columns=s.columns),
+        'FrameGO(s,index=s.index)': lambda s: sf.FrameGO(s, index=s.index),
+        'FrameGO(s,columns=s.columns) ': lambda s: sf.FrameGO(s, columns=s.columns),
+        'FrameGO(s,index,columns)': lambda s: sf.FrameGO(s, index=s.index, columns=s.columns),
+        'Frame(s,name=)': lambda s: sf.Frame(s, name='other'),
+        'FrameGO(s,name=)': lambda s: sf.FrameGO(s, name='other'),
+        'FrameGO(values,columns=s.columns)': lambda s: sf.FrameGO(s.values, index=s.index, columns=s.columns),
+        'Frame(values,columns=s.columns)': lambda s: sf.Frame(s.values, index=s.index, columns=s.columns),
         'getitem-list': lambda s: s[two(s)],
         'getitem-one': lambda s: s[first(s)],
         'getitem-slice': lambda s: s[first(s):],
@@ -1954,7 +1991,7 @@ def world_history(cls_name, init, ops):
     labels0 = list(range(len(init['cols']))) if auto else list(init['labels'])
     blocks0 = lit.lst([_blk_lit(b) for b in f0._blocks._blocks])
     live = [f0]
-    recs, steps = [], []
+    recs, srecs, steps = [], [], []
     prev_views = lit.lst([_fview_lit(f0)])
     failed_conversion = False
     for op in ops:
@@ -1989,6 +2026,7 @@ def world_history(cls_name, init, ops):
                 failed_conversion = True
         seen, pc, pb = _wseen_lit(live)
         recs.append(f'({ol}, {_out(exc)}, {seen})')
+        srecs.append(f'({"SGrow" if kind == "grow" else "SConv"} {i}%nat, {_out(exc)}, {seen})')
         what.update({'raised': None if exc is None else type(exc).__name__, 'live': [type(f).__name__ for f in live],
                      'same_columns_object': pc, 'same_blocks_object': pb,
                      'columns': [_j(f.columns.values.tolist()) for f in live]})
@@ -1999,7 +2037,7 @@ def world_history(cls_name, init, ops):
                      'data': [[str(np.dtype(dt)), _j(vs)] for dt, vs in init['cols']]},
             'steps': steps}
     m = (f'check_world_M {KNAME[cls_name]} {lit.b(auto)} {lit.vlist(init["rows"])} {lit.vlist(labels0)} {blocks0} {h}')
-    s = f'check_world_S {prev_views} {h}'
+    s = f'check_world_S {prev_views} {lit.lst(srecs)}'
     return desc, m, s
 
 
